@@ -77,6 +77,36 @@ def enum_notxoreq(tier, seed):
     return [{"ast": e} for e in trees]
 
 
+def enum_chains(tier, seed):
+    """'Caterpillar' constraints: a spine of up to five NOT / OR / AND nodes, each binary node with one literal operand
+    (on either side) - alone, and as the right-hand side of `A => ...` and of `(A|B) => ...`.  3 x 3 905 trees; the deep
+    NOT-OR-NOT-OR / AND-NOT-OR alternations that negation propagation and clause splitting have to get right at every
+    level.  Quick: a seeded 1/8 slice."""
+    lits = ["B", "C", "D", "E", "F", "G"]
+    kinds = ("NOT", "OR-l", "OR-r", "AND-l", "AND-r")
+    out = []
+
+    def build_chain(ks):
+        e = ["T", lits[len(ks) % len(lits)]]
+        for i, k in reversed(list(enumerate(ks))):
+            lit = ["T", lits[i % len(lits)]]
+            if k == "NOT":
+                e = ["NOT", e]
+            else:
+                op, side = k.split("-")
+                e = [op, lit, e] if side == "l" else [op, e, lit]
+        return e
+    for d in range(1, 6):
+        for ks in itertools.product(kinds, repeat=d):
+            c = build_chain(ks)
+            out.append({"ast": c})
+            out.append({"ast": ["IMPLIES", ["T", "A"], c]})
+            out.append({"ast": ["IMPLIES", ["OR", ["T", "A"], ["T", "H"]], c]})
+    if tier != "thorough":
+        out = out[int(seed) % 8::8]
+    return out
+
+
 def enum_bipartite(tier, seed):
     """(A1|..|An) => (B1&..&Bm) and (A1|..|An) => !(B1|..|Bm): n*m requires / excludes clauses, i.e. pseudo-complex at
     any size, with polynomial clause conversion.  (n, m) are chosen so that n*m lies just below and just above the
@@ -397,6 +427,8 @@ SUBS = [
     Sub("exhaustive-and-or-not-depth3", check, enum=enum_andornot, nontrivial=nontrivial, classes=classes,
         exhaustive={"quick": False, "thorough": True}),
     Sub("nested-xor-equivalence", check, enum=enum_notxoreq, nontrivial=nontrivial, classes=classes, exhaustive=False),
+    Sub("chains", check, enum=enum_chains, nontrivial=nontrivial, classes=classes,
+        exhaustive={"quick": False, "thorough": True}),
     Sub("bipartite-constraints", check, enum=enum_bipartite, nontrivial=lambda case: True,
         classes=lambda case: {"bipartite", "clauses>1024" if case["shape"][0] * case["shape"][1] > 1024 else "clauses<=1024"}),
     Sub("random", check, gen=lambda tier: random_cases(), nontrivial=nontrivial, classes=classes,
